@@ -21,6 +21,7 @@ META = {
     'technique': 'static analysis: abstract interpretation of the wrapper pipeline on small-scope object graphs; typestate dataf'
                  'low; who-may-call',
 }
+META['text'] += ' Child documents are produced inside the visit window: lazy parameters are iterated completely on entry, generators of child prints are consumed in the printer, and no value is printed from inside a contextual evaluator (layout time).'
 
 LEAF_KEYS = {'str', 'bytes', 'int', 'float', 'bool', 'type(None)', 'type(...)'}
 
